@@ -10,6 +10,7 @@ import (
 	"strings"
 	"sync"
 	"time"
+	"verif/harness/internal/genrun"
 
 	"github.com/200sc/bebop"
 
@@ -92,7 +93,7 @@ func runC15(c *Ctx) (int, error) {
 	if res != "nil" {
 		fail("ReadFile/Generate rejects the schema: " + res + " " + msg)
 	} else {
-		_ = os.WriteFile(filepath.Join(mod, "go.mod"), []byte("module litmod\n\ngo 1.21\n\nrequire github.com/200sc/bebop v0.0.0\n\nreplace github.com/200sc/bebop => /repo\n"), 0o644)
+		_ = os.WriteFile(filepath.Join(mod, "go.mod"), []byte("module litmod\n\ngo 1.21\n\nrequire github.com/200sc/bebop v0.0.0\n\nreplace github.com/200sc/bebop => "+genrun.RepoDir()+"\n"), 0o644)
 		_ = os.WriteFile(filepath.Join(mod, "lit", "lit.go"), src.Bytes(), 0o644)
 		_ = os.WriteFile(filepath.Join(mod, "lit", "lit.bop"), []byte(text), 0o644)
 		var m strings.Builder
